@@ -7,6 +7,12 @@ BASE_OFF = ("cd /repo && env -u GIN_CONFIG_VERIF /venv/bin/python -m pytest -ra 
 
 CHECKS = {
 
+  'C19': ('model_checking',
+          'TLA+ spec GinDynReg.tla (symbol table, attribute chain, registration bookkeeping vs Python import semantics over a constant package tree) model-checked with TLC; TLC-built files written against a fresh real package tree and parsed by gin',
+          'TLC checks for every file of up to 4 statements (import forms with colliding names, every spelling of an object reachable under two module paths, class / nested class / method / references, bad names, late enabling) that exactly the denoted object is configured, one configurable per object, and errors exactly where the file\'s own imports do not provide the name; simulated files are parsed by gin against a real temporary package (fresh module names per case), comparing error class, configured objects, behaviour through references, and - with a second file whose import collides - that config_str() re-parses to the same objects and is idempotent.',
+          'Include structures between files and the skip_unknown interaction (F11) are not in this model.',
+          'DESIGN.md section 6 C19'),
+
   'C18': ('model_checking',
           'TLA+ spec GinThreads.tla (wrapper / reader / singleton split at their shared accesses, two lock switches) model-checked with TLC over all interleavings incl. two expected-violation controls; real threads run under a deterministic line-granularity scheduler and their recorded access events are validated by TLC against the spec',
           'TLC explores every interleaving of 2-3 threads (calls in shared / distinct scopes, operative reads, first use of the same / different singletons) and shows that without either lock the properties fail; the same programs (and a 4-thread one) run as real threads under a seeded scheduler preempting at every line of gin/config.py and every lock / shared-dict operation; direct oracles judge each execution and TLC validates every recorded event sequence as a behaviour of the spec with all invariants evaluated on the states the real threads went through.',
